@@ -602,6 +602,8 @@ def replay(ctx, scen):
         rec = mut_record(scen['inputs']['init'], scen['inputs']['ops'])
         n, bad = tlc.judge('Judge_C20', [rec])
         return not bad
+    if scen['family'] not in {F.name for F in FAMILIES}:
+        return core.RERUN            # reported outside a judged family: replay by re-running the check
     fam = {F.name: F for F in FAMILIES}[scen['family']]()
     recs, bad = core.run_family(ctx, fam, inputs=[scen['inputs']])
     return not bad
